@@ -5,4 +5,4 @@ NOTES = ("One entry point: ./check <id> --tier quick|thorough. Every check rebui
 NOT_APPLICABLE = {}
 CLAIMED = {}
 # properties whose check has been integrated (fix commits applied to /repo, check passes on /repo at several seeds)
-INTEGRATED = ['C03', 'C04', 'C05', 'C06', 'C07', 'C08', 'C09', 'C10', 'C11', 'C12', 'C13', 'C14', 'C16', 'C17', 'C18', 'C19', 'C20']
+INTEGRATED = ['C01', 'C02', 'C15', 'C03', 'C04', 'C05', 'C06', 'C07', 'C08', 'C09', 'C10', 'C11', 'C12', 'C13', 'C14', 'C16', 'C17', 'C18', 'C19', 'C20']
